@@ -1065,11 +1065,30 @@ func checkC09(e *env) {
 			for _, f := range []float64{1e-7, 1e-6, 1e-5, 1e-4, 0.001, 0.01, 0.03, 0.1, 0.2, 0.3, 0.4, 0.5, 0.6, 0.7, 0.8, 0.9, 0.99} {
 				bad = append(bad, [2]float64{bl[0] - f*pix, ay}, [2]float64{ax, bl[1] - f*pix})
 			}
-			for bi, b := range bad {
+			// … and with the vertex before it inside the grid in the very border pixel it would fall into if the quotient were truncated (same row and
+			// column 0, same column and row 0): nothing about the neighbour may save the outside vertex from being looked at
+			type probe struct {
+				tri geom.Polygon
+				b   [2]float64
+			}
+			var probes []probe
+			for _, b := range bad {
+				probes = append(probes, probe{geom.Polygon{{{ax, ay}, {ax + 5*pix, ay}, b}}, b})
+			}
+			if float64(uint64(1)<<(uint(id)+gs.levelDiff)) >= 24 {
+				ry, cx := bl[1]+10*pix, bl[0]+10*pix
+				for _, f := range []float64{1e-6, 0.01, 0.3, 0.5, 0.9} {
+					bL, bB := [2]float64{bl[0] - f*pix, ry + 0.6*pix}, [2]float64{cx + 0.6*pix, bl[1] - f*pix}
+					probes = append(probes, probe{geom.Polygon{{{bl[0] + 0.5*pix, ry + 0.3*pix}, bL, {bl[0] + 3*pix, ry + 5*pix}}}, bL},
+						probe{geom.Polygon{{{cx + 0.3*pix, bl[1] + 0.5*pix}, bB, {cx + 5*pix, bl[1] + 3*pix}}}, bB})
+				}
+			}
+			for bi, pr := range probes {
+				_ = pr.b
 				for _, iog := range []bool{false, true} {
 					c := &snapCase{gs: gs, tmids: []int{id}, tag: "outside-the-extent-of-the-set"}
 					c.cfg.IgnoreOutsideGrid = iog
-					c.setPoly(geom.Polygon{{{ax, ay}, {ax + 5*pix, ay}, b}})
+					c.setPoly(pr.tri)
 					sr := c.runImpl()
 					r.count("snap-outside-extent", fmt.Sprintf("%s id %d vertex %d iog=%v", name, id, bi, iog), true)
 					want := "panic outside-grid"
@@ -1077,7 +1096,7 @@ func checkC09(e *env) {
 						want = "ok "
 					}
 					if got := sr.String(); got != want {
-						r.violation(Violation{Oracle: "outside-grid-rejected", Op: fmt.Sprintf("%s id %d, triangle (%v,%v) (%v,%v) (%v,%v), ignore-outside-grid=%v", name, id, ax, ay, ax+5*pix, ay, b[0], b[1], iog),
+						r.violation(Violation{Oracle: "outside-grid-rejected", Op: fmt.Sprintf("%s id %d, triangle %v, ignore-outside-grid=%v", name, id, pr.tri[0], iog),
 							Impl: clip(got, 300), Detail: fmt.Sprintf("the last vertex is outside the half-open extent [%v,%v) x [%v,%v) of the tile matrix set; expected %q", bl[0], tr[0], bl[1], tr[1], want)})
 					}
 				}
